@@ -359,6 +359,7 @@ class Explorer(object):
     def __init__(self, max_paths=20000, deadline=None, shard=None, split_depth=2):
         self.max_paths = max_paths
         self.deadline = deadline
+        self.allow_bound = False        # harnesses that inspect 'bound' outcomes themselves set this
         self.shard = shard              # (i, n): this explorer owns the i-th of n parts of the tree
         self.split_depth = split_depth
         self.stack = []     # [choice, remaining alternatives, label]
@@ -394,6 +395,8 @@ class Explorer(object):
                 except PathAbort:
                     res = PathResult("abort", None, None, c)
                 except BoundExceeded as e:
+                    if not self.allow_bound:
+                        raise          # the unwinding assertion failed on a feasible path: the run is inconclusive
                     res = PathResult("bound", None, e, c)
                 except Unsupported:
                     raise
